@@ -69,7 +69,7 @@ func (f *Prog) Call(s *slip.Scope, args slip.List, depth int) slip.Object {
 			return loopExit(tr)
 		case *GoTo:
 			for i = 1; i < len(args); i++ {
-				if args[i] == tr.Tag {
+				if slip.SameTag(args[i], tr.Tag) {
 					break
 				}
 			}
